@@ -436,19 +436,26 @@ def case_urls(idx, rng, res):
     from pysmi import error
     base = tempfile.mkdtemp(prefix='verif-c14u-', dir=env.scratch_root())
     try:
-        d = os.path.join(base, 'some dir' if rng.random() < 0.2 else 'mibs')
+        from urllib.request import pathname2url
+        odd = rng.choice(['mibs', 'some dir', 'vendor mibs (v2)', u'caf\xe9', 'a%20b', 'plus+and&amp'])
+        d = os.path.join(base, odd)
         os.makedirs(d)
-        zp = os.path.join(base, 'arch' + rng.choice(['.zip', '.ZIP']))
+        with open(os.path.join(d, 'A-MIB'), 'w') as f:
+            f.write('from the directory\n')
+        zdir = os.path.join(base, rng.choice(['z', 'zip dir', 'z (1)']))
+        os.makedirs(zdir)
+        zp = os.path.join(zdir, 'arch' + rng.choice(['.zip', '.ZIP']))
         with zipfile.ZipFile(zp, 'w') as z:
-            z.writestr('A-MIB', 'x')
+            z.writestr('A-MIB', 'from the archive\n')
         host = rng.choice(['mibs.example.org', '127.0.0.1', 'h'])
         port = rng.choice([None, 8080, 2121])
         hp = host + (':%d' % port if port else '')
         table = [
-            (d, FileReader, {'_path': os.path.normpath(d)}),
-            ('file://' + d.replace(' ', '%20'), FileReader, {'_path': os.path.normpath(d)}),
-            (zp, ZipReader, {'_name': zp}),
-            ('zip://' + zp, ZipReader, {'_name': zp}),
+            (d, FileReader, {'serves': 'from the directory\n'}) if '%' not in odd else ('gopher://h/x', None, {}),
+            ('file://' + pathname2url(d), FileReader, {'serves': 'from the directory\n'}),
+            (zp, ZipReader, {'serves': 'from the archive\n'}),
+            ('zip://' + pathname2url(zp), ZipReader, {'serves': 'from the archive\n'}),
+            (pathname2url(zp), ZipReader, {'serves': 'from the archive\n'}),
             ('http://%s/a/@mib@' % hp, HttpReader, {'_url': 'http://%s:%d/a/@mib@' % (host, port or 80)}),
             ('https://%s/b/@mib@' % hp, HttpReader, {}),
             ('ftp://%s/c/@mib@' % hp, FtpReader, {'_host': host, '_locationTemplate': '/c/@mib@', '_ssl': False}),
@@ -477,7 +484,17 @@ def case_urls(idx, rng, res):
                     url, [type(r).__name__ for r in rs], cls.__name__), replay={'url': url})
                 continue
             for k, v in attrs.items():
-                if getattr(rs[0], k, None) != v:
+                if k == 'serves':
+                    # judged by what the reader delivers, not by how it stores its location
+                    try:
+                        got_text = rs[0].getData('A-MIB')[1]
+                    except Exception as exc:
+                        got_text = repr(exc)
+                    res.count('url_readers_probed')
+                    if got_text != v:
+                        res.violation('url_reader_location', 'URL %r: the reader built from it does not serve the file at '
+                                      'that location: %r' % (url, got_text[:80]), replay={'url': url})
+                elif hasattr(rs[0], k) and getattr(rs[0], k) != v:
                     res.violation('url_reader_params', 'URL %r: reader.%s=%r expected %r' % (
                         url, k, getattr(rs[0], k, None), v), replay={'url': url}, attr=k)
             res.cell('url:' + cls.__name__)
